@@ -585,11 +585,26 @@ func checkOutcome(tc *tcase, o outcome) string {
 	}
 	ranInEpoch := map[[2]int]bool{}
 	var prev xmpp.SessionState = tc.initial
+	// the state as it follows from what the features negotiated so far returned
+	// (independent of what Session.State reports inside a Negotiate call)
+	model := tc.initial
 	for i, e := range r.trace {
 		f := tc.feats[e.k]
 		// I1
 		if !eligibleMasks(f, e.state) {
 			return fmt.Sprintf("trace[%d]: f%d negotiated in state %v although it needs %v and forbids %v", i, e.k, e.state, f.necessary, f.prohibited)
+		}
+		// I1': the same against the bits the earlier features have set, and the
+		// state a feature sees must contain them
+		if missing := model &^ e.state &^ (xmpp.Received | xmpp.S2S); missing != 0 {
+			return fmt.Sprintf("trace[%d]: f%d was run with Session.State() = %v, which lacks the bits %v set by the features negotiated before it", i, e.k, e.state, missing)
+		}
+		if model&f.prohibited != 0 {
+			return fmt.Sprintf("trace[%d]: f%d negotiated although it forbids %v and the features negotiated before it had set %v", i, e.k, f.prohibited, model)
+		}
+		model |= f.adds
+		if f.ready {
+			model |= xmpp.Ready
 		}
 		// I4
 		key := [2]int{e.k, e.epoch}
